@@ -59,13 +59,14 @@ class VLoop(base_events.BaseEventLoop):
 
     def __init__(self, chooser=None, *, start_us: int = 0, tie_choice: bool = True,
                  latencies_us=(0,), max_iterations: int = 200_000,
-                 horizon_us: int | None = None):
+                 horizon_us: int | None = None, lat_harness_timers: bool = True):
         super().__init__()
         self._now_us = int(start_us)
         self._selector = _VSelector(self)
         self.chooser = chooser or DefaultChooser()
         self.tie_choice = tie_choice
         self.latencies_us = tuple(latencies_us)
+        self.lat_harness_timers = lat_harness_timers
         self._idle_waiters: list[asyncio.Future] = []
         self.iterations = 0
         self.max_iterations = max_iterations
@@ -163,7 +164,8 @@ class VLoop(base_events.BaseEventLoop):
         # advance time to the first deadline
         when = self._scheduled[0]._when
         target = max(self._now_us, self._us_at_or_after(when))
-        if len(self.latencies_us) > 1:
+        if len(self.latencies_us) > 1 and (self.lat_harness_timers or not self._is_harness_timer(
+                self._scheduled[0])):
             target += self.latencies_us[self.chooser.choose(len(self.latencies_us), 'lat')]
         else:
             target += self.latencies_us[0]
@@ -173,6 +175,12 @@ class VLoop(base_events.BaseEventLoop):
         self.time_advances += 1
         self._order_ties()
         return []
+
+    @staticmethod
+    def _is_harness_timer(handle) -> bool:
+        """A timer created by the harness itself (driver sleeps, scheduled actions)."""
+        cb = handle._callback
+        return getattr(cb, '__module__', '').startswith('vt.')
 
     def _order_ties(self):
         """Move due timers to _ready; equal-deadline groups in a chosen order."""
